@@ -746,7 +746,7 @@ class Plucker(SMUserList):
             # lines are skew or intersecting
             w = np.cross(l1.w, l2.w)
             v = np.cross(l1.v, l2.w) - np.cross(l2.v, l1.w) + \
-                (l1 * l2) * np.dot(l1.w, l2.w) * base.unitvec(np.cross(l1.w, l2.w))
+                (np.dot(l1.v, l2.w) + np.dot(l2.v, l1.w)) * np.dot(l1.w, l2.w) * w / np.dot(w, w)
             
         return Plucker(v, w)
 
